@@ -31,7 +31,7 @@ PROPS = {
     "C04": {"level": "exploration", "arms": [A("par-free", 30000, 1500000), A("par-cutoff", 40000, 2000000), A("par-flaky", 20000, 800000), A("par-threads", 20000, 800000), A("par-threads-cutoff", 20000, 800000), A("ext:miri-solver", 0, 320, reps=6)],
             "probes": ["probe:multi_wake", "probe:abort_with_peer_parked", "probe:abort_with_peer_processing", "fault:thread_count_increase", "fault:cutoff_fired", "probe:worker_parked_and_woken"],
             "rule": RULE_SOLVER + "; violation classes: deadlock (no enabled worker while one is parked), step-bound, worker panic, premature completion"},
-    "C05": {"level": "exploration", "arms": [A("par-cutoff", 60000, 3000000), A("par-threads-cutoff", 10000, 400000), A("seq-sweep", 6000, 250000), A("seq-sweep-nodup", 3000, 200000)],
+    "C05": {"level": "exploration", "arms": [A("par-cutoff", 60000, 3000000), A("par-threads-cutoff", 10000, 400000), A("seq-sweep", 6000, 250000), A("seq-sweep-nodup", 6000, 300000)],
             "probes": ["fault:cutoff_fired", "probe:abort_with_peer_parked", "probe:abort_with_peer_processing", "probe:ub_strictly_decreased_between_consecutive_k", "sweep_executions"],
             "rule": RULE_SOLVER + "; sequential arm: for each sampled (instance, configuration) EVERY cutoff index k in 1..K+1 is executed (K = polls of the uninterrupted run); each (instance, configuration, k) with k <= K counts as one distinct non-trivial case"},
     "C06": {"level": "fault_enumeration", "arms": [A("dd-history", 30000, 1200000), A("dd-history-narrow", 30000, 1200000), A("dd-history-depthfree", 10000, 400000), A("dd-history-longarc", 10000, 400000)],
@@ -69,7 +69,7 @@ PROPS = {
             "real": ["ddo::SimpleCache, ddo::SimpleDominanceChecker", "dashmap 5.5 (shard RwLocks) and parking_lot_core, interpreted by Miri", "std::thread (Miri's seeded scheduler decides every pre-emption)"],
             "stub": ["nothing is stubbed in the concurrent arm; the workload (2..3 threads x 2..4 operations on 1..2 keys) is generated from the workload seed"],
             "rule": "concurrent half (engine M): one Miri execution = one (workload seed, Miri seed, pre-emption rate) triple running 20 generated workloads of 2..3 real threads x 2..4 operations on 1..2 keys; every operation stamped with invoke/return values of a global SeqCst counter; the recorded history is checked for linearizability against the sequential specification by exhaustive search, plus no-lost-update and monotone-read checks; non-trivial = operations on the same key overlapped in (invoke, return) time. sequential specification: generated histories of update/get/clear_layer/clear/must_explore (<= 3 states x 4 depths x values -2..3 x explored) against a BTreeMap reference, and the dominance histories of C10; distinct = distinct history"},
-    "C19": {"level": "fault_enumeration", "arms": [A("seq-sweep", 12000, 500000), A("seq-sweep-nodup", 4000, 200000)],
+    "C19": {"level": "fault_enumeration", "arms": [A("seq-sweep", 12000, 500000), A("seq-sweep-nodup", 10000, 300000)],
             "probes": ["probe:ub_strictly_decreased_between_consecutive_k", "probe:lb_strictly_increased_between_consecutive_k", "probe:nodup_coalesced_diff_ub", "sweep_executions"],
             "rule": "for each sampled (instance, configuration) the uninterrupted run gives K polls, then EVERY cutoff index k in 1..K+1 is executed and consecutive k are compared; a case = (instance, configuration, k); non-trivial = k <= K (the cutoff really fires); distinct by hash of (tables, configuration, k)",
             "extra_coverage": {"exhaustive_over": "the cutoff index k, per sampled instance (instances themselves are sampled)"}},
